@@ -16,6 +16,7 @@ shared-memory step, environment actions Redefine / Collect).  Three parts, all d
 import os
 import json
 import copy
+import queue
 import threading
 import multiprocessing
 
@@ -60,7 +61,7 @@ def tier_plan(tier):
                 dict(name='mc2-live', workers=3, cfg=dict(spec='FairSpec', threads=2, redef=0, coll=1, nest=1, fail=1,
                                                          fns='Fns2', codes=2, properties=('Returns',))),
             ],
-            stress_procs=8, replay=dict(num=72, configs=[dict(threads=2, req=2), dict(threads=3, req=2)]),
+            stress_procs=8, batch_events=30000, replay=dict(num=72, configs=[dict(threads=2, req=2), dict(threads=3, req=2)]),
             trace_workers=10)
     return dict(
         models=[
@@ -277,7 +278,7 @@ def run(rep):
         jobs = c10_stress.plan_jobs(seed, tier)
         for j in jobs:
             j['scratch'] = scratch
-        stress_async = pool.map_async(c10_stress.run_job_safe, jobs, chunksize=1)
+        stress_iter = pool.imap_unordered(c10_stress.run_job_safe, jobs, chunksize=1)
         model_results, sched = [], dict(tlc=[], jobs=[])
         errors = []
 
@@ -291,25 +292,60 @@ def run(rep):
         th_sched = threading.Thread(target=guarded, args=(generate_schedules, plan['replay'], seed, sched))
         th_models.start()
         th_sched.start()
-        th_sched.join()
-        timing['schedules_generated_at'] = timer.s()
+
+        # ---- code -> spec: traces are validated in batches while the stress jobs are still running
+        results, by_id, nrej = [], {}, [0]
+        batches = queue.Queue()
+
+        def validator():
+            k = 0
+            while True:
+                chunk = batches.get()
+                if chunk is None:
+                    return
+                k += 1
+                nrej[0] += judge_traces(rep, chunk, by_id, scratch, plan['trace_workers'], 'traces%d' % k)
+
+        th_val = threading.Thread(target=guarded, args=(validator,))
+        th_val.start()
+        replay_async = None
+        cur, cur_events = [], 0
+        for r in stress_iter:
+            if 'machinery' in r:
+                batches.put(None)
+                raise common.MachineryError(r['machinery'])
+            results.append(r)
+            by_id[r['id']] = r
+            cur.append(r['trace'])
+            cur_events += len(r['trace']['ev'])
+            if cur_events > plan.get('batch_events', 150000):
+                batches.put(cur)
+                cur, cur_events = [], 0
+            if replay_async is None and not th_sched.is_alive():
+                if errors:
+                    batches.put(None)
+                    raise errors[0]
+                timing['schedules_generated_at'] = timer.s()
+                for i, j in enumerate(sched['jobs']):
+                    j.update(id=i + 1, layout=i, scratch=scratch)
+                replay_async = pool.map_async(c10_replay.replay_safe, sched['jobs'], chunksize=2)
+        if cur:
+            batches.put(cur)
+        batches.put(None)
+        timing['stress_done_at'] = timer.s()
+        if replay_async is None:
+            th_sched.join()
+            if errors:
+                raise errors[0]
+            for i, j in enumerate(sched['jobs']):
+                j.update(id=i + 1, layout=i, scratch=scratch)
+            replay_async = pool.map_async(c10_replay.replay_safe, sched['jobs'], chunksize=2)
+        th_val.join()
         if errors:
             raise errors[0]
-        for i, j in enumerate(sched['jobs']):
-            j.update(id=i + 1, layout=i, scratch=scratch)
-        replay_async = pool.map_async(c10_replay.replay_safe, sched['jobs'], chunksize=2)
-
-        # ---- code -> spec
-        results = stress_async.get()
-        timing['stress_done_at'] = timer.s()
-        for r in results:
-            if 'machinery' in r:
-                raise common.MachineryError(r['machinery'])
-        by_id = {r['id']: r for r in results}
+        results.sort(key=lambda r: r['id'])
         traces = [r['trace'] for r in results]
-        nrej = 0
-        for k, chunk in enumerate(chunk_traces(traces, 260000)):
-            nrej += judge_traces(rep, chunk, by_id, scratch, plan['trace_workers'], 'traces%d' % k)
+        nrej = nrej[0]
         timing['traces_validated_at'] = timer.s()
         for r in results:
             for d in r['diffs']:
